@@ -564,7 +564,9 @@ extern "C" void *simk_mmap(void *a, size_t n, int prot, int fl, int fd, off_t of
 	call_point(S_MMAP);
 	if (fd >= 0 && !fd_ok(fd)) { errno = EBADF; return MAP_FAILED; }
 	if (fault_here(F_MMAP_ENOMEM, C().rate_mmap, NULL, 0)) { errno = ENOMEM; return MAP_FAILED; }
-	return mmap(a, n, prot, fl, fd, off);
+	void *r = mmap(a, n, prot, fl, fd, off);
+	if (r != MAP_FAILED && in_task() && shim_hooks().on_mmap) shim_hooks().on_mmap(r, n, prot, fl, fd);
+	return r;
 }
 extern "C" int simk_munmap(void *a, size_t n) { call_point(S_MUNMAP); return munmap(a, n); }
 
